@@ -34,6 +34,9 @@ type Case struct {
 	// server has user ping / pong handlers, which are callbacks of the connection like any other
 	CtlEvery  int `json:"ctl_every,omitempty"`
 	HandlerUs int `json:"handler_us,omitempty"` // time a message callback stays in the handler (default 50)
+	// WritePaceUs: the server-side writers pause this long between their messages, so that the sender of the
+	// asynchronous send queue keeps running dry and being restarted
+	WritePaceUs int `json:"write_pace_us,omitempty"`
 	// AsyncRead: the engine reads in its IO executor instead of the poller goroutine (edge-triggered modes only)
 	AsyncRead bool `json:"async_read,omitempty"`
 	// YieldPerMille (instrumented build only): probability, in 1/1000, with which every lock / unlock
@@ -123,6 +126,9 @@ func startServer(c Case) (*wsServer, error) {
 							}
 						} else {
 							return
+						}
+						if c.WritePaceUs > 0 {
+							time.Sleep(time.Duration(c.WritePaceUs+(w*7+seq*3)%c.WritePaceUs) * time.Microsecond)
 						}
 					}
 				}(w)
@@ -645,6 +651,7 @@ func gen(t *rapid.T) Case {
 		c.OutSizes = append(c.OutSizes, rapid.SampledFrom([]int{12, c.FrameLimit - 1, c.FrameLimit, c.FrameLimit + 1, 2*c.FrameLimit + 1, 5 * c.FrameLimit, 70000}).Draw(t, "outsize"))
 	}
 	c.WriteFrom = rapid.SampledFrom([]string{"open", "first-message"}).Draw(t, "writefrom")
+	c.WritePaceUs = rapid.SampledFrom([]int{0, 0, 20, 100}).Draw(t, "writepace")
 	c.Ending = rapid.SampledFrom([]string{"client-close", "client-cut", "server-close", "client-reset", "server-close-mid-handler"}).Draw(t, "ending")
 	c.AsyncRead = rapid.Bool().Draw(t, "asyncread")
 	if rapid.IntRange(0, 2).Draw(t, "ctl") == 0 {
